@@ -68,6 +68,16 @@ CHECKS["C05"] = dict(
          "natively against a reference model of the property.",
     design_ref="§4 C05, §9")
 
+CHECKS["C06"] = dict(
+    technique="bounded inductive verification by SAT of one arbitrary close_until iteration and the prologue: no allocation, exact is_dirty, strictly decreasing lexicographic ranking function",
+    text="For every corpus program without `!` the solver shows, from every state over the universe bound that satisfies the loop-head invariant, "
+         "that one iteration of the generated close_until (and its prologue) allocates no element and creates no equivalence class, that is_dirty() "
+         "is exact (true iff a new tuple, an uprooted element or the empty-join flag exists), and that an iteration that goes round the loop again "
+         "strictly decreases the lexicographic measure (set of roots, set of tuples not yet old, empty-join flag). Hence close() terminates within "
+         "(U+1)*(sum U^arity+1)*2 iterations on every model with at most U elements per type and never increases the number of elements. "
+         "A failed lemma is reported only with a solver-found public history whose native close() allocates, creates a class, panics or does not terminate.",
+    design_ref="§4 C06, §9")
+
 NOT_APPLICABLE = {
     "C02": "check not built yet (ghost-model soundness lemma planned, DESIGN.md §9)",
     "C03": "check not built yet (follows from C01 + C02 lemmas; idempotence lemma planned)",
